@@ -286,6 +286,14 @@ def _weave_sub(sub, e, fnid, src, sig_end, body_close, lps, edits, vacuity, spli
             if pos < 0:
                 raise AnchorLost('hint anchor %r #%d in %s' % (stmt, k, fnid))
         at = pos if where_ == 'before' else pos + len(stmt)
+        if where_ == 'before':
+            # the anchor text may have become the tail of a longer statement (`let x = <anchor>`): proof text goes
+            # before the whole statement, never into the middle of one
+            q = pos - 1
+            while q > sig_end and src[q] not in ';{}':
+                q -= 1
+            if src[q + 1:pos].strip() and not src[q + 1:pos].strip().startswith('//'):
+                at = q + 1
         text, metas = _mk(lines, fnid, 'hint', e['props'])
         edits.append(Edit(at, '\n' + text + '\n', 6, [None] + metas + [None]))
     elif head.startswith('@closure '):
